@@ -28,9 +28,13 @@ pub enum TagK {
     Str,
     Local,
     Other,
+    /// yaml.org namespace, but none of the five core-schema tags
+    CoreBin,
+    /// yaml.org namespace, a core tag name in the wrong case
+    CoreCaps,
 }
 
-pub const TAGS: [TagK; 8] = [TagK::None, TagK::Int, TagK::Float, TagK::Bool, TagK::Null, TagK::Str, TagK::Local, TagK::Other];
+pub const TAGS: [TagK; 10] = [TagK::None, TagK::Int, TagK::Float, TagK::Bool, TagK::Null, TagK::Str, TagK::Local, TagK::Other, TagK::CoreBin, TagK::CoreCaps];
 
 impl TagK {
     pub fn tag(self) -> Option<Tag> {
@@ -44,6 +48,8 @@ impl TagK {
             TagK::Str => core("str"),
             TagK::Local => Some(Tag { handle: "!".into(), suffix: "foo".into() }),
             TagK::Other => Some(Tag { handle: "tag:other:".into(), suffix: "x".into() }),
+            TagK::CoreBin => core("binary"),
+            TagK::CoreCaps => core("Int"),
         }
     }
     /// how the tag is written in a document
@@ -57,6 +63,8 @@ impl TagK {
             TagK::Str => "!!str ",
             TagK::Local => "!foo ",
             TagK::Other => "!<tag:other:x> ",
+            TagK::CoreBin => "!!binary ",
+            TagK::CoreCaps => "!!Int ",
         }
     }
     pub fn name(self) -> &'static str {
@@ -69,6 +77,8 @@ impl TagK {
             TagK::Str => "str",
             TagK::Local => "local",
             TagK::Other => "other",
+            TagK::CoreBin => "corebin",
+            TagK::CoreCaps => "corecaps",
         }
     }
     pub fn parse(s: &str) -> TagK {
@@ -162,7 +172,7 @@ pub fn judge(text: &str, style: ScalarStyle, tag: TagK, got: &Got) -> CheckResul
     let c = classify(text);
     let i64v = |v: &Option<i128>| v.and_then(|v| i64::try_from(v).ok());
     match tag {
-        TagK::Str | TagK::Local | TagK::Other => {
+        TagK::Str | TagK::Local | TagK::Other | TagK::CoreBin | TagK::CoreCaps => {
             ensure!(*got == Got::Str(text.to_string()), "tagged-str", "{}: must stay the identical string, got {got:?}", who());
         }
         TagK::None => match &c {
